@@ -31,7 +31,7 @@ MANIFEST = {
     'technique': 'bounded-exhaustive enumeration of operation histories on three applications in one process (nested calls, '
                  'Request.copy, object construction inside handlers) replayed on a fresh import, plus exploration of all '
                  'two-thread schedules with bounded preemptions; oracle = handler observations and responses equal the lone run',
-    'text': 'All histories up to depth 2 (quick) / 3 (thorough) over 73 operations, and up to depth 3 / 4 over the 15 error / creation operations, on applications A, B and the default '
+    'text': 'All histories up to depth 2 (quick) / 3 (thorough) over 76 operations, and up to depth 3 / 4 over the 15 error / creation operations, on applications A, B and the default '
             'application, and all schedules with <=1 preemption (thorough: <=2 for the pairs A+B and A:chunked+B:chunked) of requests on two threads, '
             'are executed; each observation of app.request / app.response must show the application\'s own request. Every application registers a before_request hook for itself (the hook log must equal the served sequence); handlers re-read their body around nested requests with bodies; chunked forms and private status codes are part of the menu.',
     'note': 'Bounds: 3 applications, history depth and preemption bound as stated. Trusted: vf/sched.py, the fresh-import loader.',
@@ -76,6 +76,9 @@ def menu():
     # a handler that reads its body before and after another application served a request with a body
     for x, y in (('A', 'B'), ('B', 'D'), ('D', 'A'), ('A', None)):
         m.append(('serve', x, 'pbody', y))
+    # ... the same with bodies that stay in memory (outer 3 bytes, inner 4 bytes, max_memfile_size 4)
+    for x, y in (('A', 'B'), ('B', 'D'), ('D', 'A')):
+        m.append(('serve', x, 'pbodys', y))
     # paths that only one application routes, a 404 handler scoped to a prefix (each application has its own), a cookie signed
     # with A's secret (each application verifies with its own secret)
     for x in APPS:
@@ -232,10 +235,10 @@ class World:
                 env = wsgi.environ('GET', '/sc', qs='who=' + name, headers={'Cookie': 'sess=' + self.signed_by_a()})
             elif kind == 'small':
                 env = wsgi.environ('POST', f'/b/{rid}', qs='who=' + name, body=b'in' + name.encode() + rid.encode(), headers=h)
-            elif kind == 'pbody':
+            elif kind in ('pbody', 'pbodys'):
                 if op:
                     self.pending[(name, rid)] = op
-                env = wsgi.environ('POST', f'/pb/{rid}', qs='who=' + name, body=b'body' + name.encode() + rid.encode(), headers=h)
+                env = wsgi.environ('POST', f'/pb/{rid}', qs='who=' + name, body=(b'body' if kind == 'pbody' else b'm') + name.encode() + rid.encode(), headers=h)
             elif kind == 'cform':
                 fb = b's=%s%s' % (name.encode(), rid.encode())          # within max_body_size
                 raw = b'%x\r\n%s\r\n0\r\n\r\n' % (len(fb), fb)
@@ -278,8 +281,8 @@ class World:
             return None
         if n in ('badj', 'badh', 'big', 'cform') + LOOKUPS:
             return self.request(x, None, n)
-        if n == 'pbody':
-            return self.request(x, ('pbody', y), 'pbody')
+        if n in ('pbody', 'pbodys'):
+            return self.request(x, (n, y), n)
         if n == 'dm':
             return self.request(x, None, 'dm')
         if n == 'hookcall':
@@ -365,8 +368,8 @@ def run_history(hist):
                     continue
                 if k == 'hookcall':
                     k = 'none'
-                if k == 'pbody':
-                    mine = b'body' + name.encode() + rid.encode()
+                if k in ('pbody', 'pbodys'):
+                    mine = (b'body' if k == 'pbody' else b'm') + name.encode() + rid.encode()
                     if resp[0] != '200 OK' or not (resp[2].startswith(mine + b'|') and resp[2].endswith(b'|' + mine)):
                         v = ('body-changed', f'application {name}, request {rid}: the handler read its body before and after a nested request of another '
                                              f'application; it saw {resp[2]!r} (its body is {mine!r}), status {resp[0]}')
